@@ -114,7 +114,14 @@ func (m *MainLoop) run(ctx context.Context) {
 			shutdown = true
 
 		case message := <-m.messagesChannel:
+			if message == nil {
+				continue
+			}
 			parsedMessage := interfaces.ToConsensusMessage(message)
+			if parsedMessage == nil { // content is not a parsable consensus message
+				m.logger.Info("LHFLOW LHMSG MAINLOOP - IGNORING UNPARSABLE MESSAGE")
+				continue
+			}
 
 			m.logger.Debug("LHFLOW LHMSG MAINLOOP RECEIVED %v from %v for H=%d V=%d", parsedMessage.MessageType(), parsedMessage.SenderMemberId(), parsedMessage.BlockHeight(), parsedMessage.View())
 
